@@ -533,6 +533,7 @@ func (r *recorder) advance(l *line, st step, chainRoot string) {
 	deplook := r.proj.depositLookups(l.sc, st.env)
 	// the long-lived line
 	parent, parentN0 := l.sc, l.n0
+	preFacts := factsOf(l.sc)
 	next := clientCopy(l.sc)
 	o := run(next, st)
 	if o.Out == "ok" {
@@ -545,6 +546,8 @@ func (r *recorder) advance(l *line, st step, chainRoot string) {
 	sc := l.sc
 	if o.Out != "ok" {
 		sc = next
+	} else {
+		r.extraFlags = boundaryClass(preFacts, factsOf(sc))
 	}
 	r.logCtx(l, sc, l.n0, st.kind, o, fs, chainRoot, preSlot, preFork, preN, deplook)
 	if o.Out != "ok" {
@@ -586,7 +589,11 @@ func (r *recorder) sideSlots(l *line, st step, preSlot common.Slot, preN int, al
 	n0 := l.n0
 	for s := preSlot + 1; s <= st.to && (all || st.kind == "block" || s < st.to); s++ {
 		ps, pf := side.Slot(), side.Fork()
+		pre := factsOf(side)
 		o := run(side, step{kind: "slots", to: s})
+		if o.Out == "ok" {
+			r.extraFlags = boundaryClass(pre, factsOf(side))
+		}
 		if side.Spec.SlotToEpoch(s) != side.Spec.SlotToEpoch(ps) {
 			n0 = preN
 		}
@@ -651,7 +658,7 @@ func (r *recorder) after(c *chain.Chain, st step, err error) {
 	}
 }
 
-func (r *recorder) BeforeSlots(c *chain.Chain, to common.Slot)                    {}
+func (r *recorder) BeforeSlots(c *chain.Chain, to common.Slot)                  {}
 func (r *recorder) BeforeBlock(c *chain.Chain, env *common.BeaconBlockEnvelope) {}
 func (r *recorder) AfterSlots(c *chain.Chain, to common.Slot, err error) {
 	r.after(c, step{kind: "slots", to: to}, err)
@@ -730,6 +737,9 @@ func chainList(tier string, seed int64) []chainCfg {
 		add("S1", [4]int{-1, -1, -1, -1}, 4, "fork-deposits-lt-cap", 3)
 		add("S1", [4]int{0, 0, 0, 0}, 4, "fork-deposits-eq-cap", 2)
 		add("S1", [4]int{0, 0, 1, 1}, 4, "fork-deposit-vs-rotate", 3)
+		add("S1", [4]int{-1, -1, -1, -1}, 7, "idle-active-set", 0)
+		add("S1", [4]int{0, 0, -1, -1}, 7, "idle-active-set", 0)
+		add("S1", [4]int{0, 0, 0, 0}, 7, "idle-active-set", 0)
 		add("minimal", [4]int{1, 2, 2, 3}, 4, "", 2)
 		for _, n := range []string{"deposit-mix", "fork-boundary-gaps", "sync-patterns", "exit-queue", "mass-slashing", "leak-with-ejections"} {
 			corner(n)
@@ -758,6 +768,10 @@ func chainList(tier string, seed int64) []chainCfg {
 	}
 	add("S1", [4]int{1, 2, 3, 4}, 8, "branch-other-deposits", 0)
 	add("S4", [4]int{0, 0, 0, 0}, 10, "branch-other-deposits", 0)
+	for _, f := range [][4]int{{-1, -1, -1, -1}, {0, -1, -1, -1}, {0, 0, -1, -1}, {0, 0, 0, -1}, {0, 0, 0, 0}, {1, 2, 3, 4}, {3, 3, 6, 6}} {
+		add("S1", f, 7, "idle-active-set", 0)
+		add("S3", f, 7, "idle-active-set", 0)
+	}
 	for _, f := range [][4]int{{-1, -1, -1, -1}, {0, -1, -1, -1}, {0, 0, -1, -1}, {0, 0, 0, -1}, {0, 0, 0, 0}, {0, 1, 1, 2}, {1, 1, 2, 2}} {
 		add("S1", f, 4, "fork-deposits-lt-cap", 3)
 		add("S1", f, 4, "fork-deposits-eq-cap", 2)
@@ -830,9 +844,19 @@ func record(cfg chainCfg, f *os.File) {
 			spec.EPOCHS_PER_ETH1_VOTING_PERIOD = 1
 			spec.SLOTS_PER_HISTORICAL_ROOT = 16
 		}
+		if cfg.Script == "idle-active-set" {
+			// a wide hysteresis band (+-20 increments) so that the penalties of an idle chain cannot move any
+			// effective balance - nor even satisfy the hysteresis condition - during the run
+			spec.HYSTERESIS_QUOTIENT = 1
+			spec.HYSTERESIS_DOWNWARD_MULTIPLIER = 20
+			spec.HYSTERESIS_UPWARD_MULTIPLIER = 20
+		}
 		g := chain.GenesisOpts{Validators: cfg.Validators}
 		g.PendingDeposits = pendingDeposits(spec, cfg.Validators, cfg.Pending)
 		c, err = chain.NewGenesis(spec, g)
+		if err == nil && cfg.Script == "idle-active-set" {
+			err = pinnedRegistry(c)
+		}
 		// the cache-fork script needs eth1 votes to succeed on both sides: participation patterns only
 		steps = chain.RandomScenario(rand.New(rand.NewSource(cfg.Seed)), spec, chain.ScenarioOpts{Epochs: cfg.Epochs, Validators: cfg.Validators,
 			Calm: cfg.Script == "branch-other-deposits"})
@@ -925,6 +949,14 @@ func record(cfg chainCfg, f *os.File) {
 			}
 			runSteps(c, rest)
 		}
+	case "idle-active-set":
+		// no blocks: one ProcessSlots per epoch (every slot on the way is observed on the side copy)
+		for e := common.Epoch(1); e <= common.Epoch(cfg.Epochs); e++ {
+			if err := c.Slots(common.Slot(e) * spec.SLOTS_PER_EPOCH); err != nil {
+				r.sum.Stopped = fmt.Sprintf("ProcessSlots to epoch %d failed on an idle chain: %v", e, err)
+				break
+			}
+		}
 	case "fork-deposits-lt-cap", "fork-deposits-eq-cap", "fork-deposit-vs-rotate":
 		r.aliasScript(c, cfg)
 	case "branch-other-deposits":
@@ -967,6 +999,137 @@ func pendingDeposits(spec *common.Spec, validators, k int) []chain.DepositSpec {
 		d := pattern[i]
 		d.Amount *= scale
 		out = append(out, d)
+	}
+	return out
+}
+
+// pinnedRegistry edits the genesis registry (the result is an arbitrary well-formed state) so that the ACTIVE SET
+// changes at given epochs while NO effective balance changes: every balance is set to the maximum effective balance
+// plus 10 increments, well inside the (widened, see record) hysteresis band for the whole idle, penalised run, and
+//
+//	validator 1   activation_epoch 2                       (i)   an activation alone
+//	validator 2   exit_epoch 3                             (ii)  an exit alone
+//	validators 3, 4   activation_epoch 4 / exit_epoch 4    (iii) both in the same epoch
+//	validator 5   slashed, exit_epoch 5                    (iv)  a slashed validator leaves the active set
+//
+// The epochs context is rebuilt from the edited state (it is the long-lived context from here on).
+func pinnedRegistry(c *chain.Chain) error {
+	spec := c.Spec
+	vals, err := c.State.Validators()
+	if err != nil {
+		return err
+	}
+	bals, err := c.State.Balances()
+	if err != nil {
+		return err
+	}
+	n := int(c.ValidatorCount())
+	for i := 0; i < n; i++ {
+		if err := bals.SetBalance(common.ValidatorIndex(i), spec.MAX_EFFECTIVE_BALANCE+10*spec.EFFECTIVE_BALANCE_INCREMENT); err != nil {
+			return err
+		}
+	}
+	delay := spec.MIN_VALIDATOR_WITHDRAWABILITY_DELAY
+	val := func(i int) common.Validator {
+		v, err := vals.Validator(common.ValidatorIndex(i))
+		check(err)
+		return v
+	}
+	activate := func(i int, e common.Epoch) {
+		check(val(i).SetActivationEligibilityEpoch(0))
+		check(val(i).SetActivationEpoch(e))
+	}
+	exit := func(i int, e common.Epoch) {
+		check(val(i).SetExitEpoch(e))
+		check(val(i).SetWithdrawableEpoch(e + delay + 8))
+	}
+	activate(1, 2)
+	exit(2, 3)
+	activate(3, 4)
+	exit(4, 4)
+	check(val(5).MakeSlashed())
+	check(val(5).SetExitEpoch(5))
+	check(val(5).SetWithdrawableEpoch(5 + common.Epoch(spec.EPOCHS_PER_SLASHINGS_VECTOR) + 8))
+	epc, err := common.NewEpochsContext(spec, c.State.BeaconState)
+	if err != nil {
+		return err
+	}
+	c.Epc = epc
+	return nil
+}
+
+// regFacts are the state facts the cached quantities depend on, for the "which fact changed alone" classes.
+type regFacts struct {
+	epoch   common.Epoch
+	active  map[common.ValidatorIndex]bool
+	slashed map[common.ValidatorIndex]bool
+	effs    []common.Gwei
+	// inBand: no balance satisfies the hysteresis condition of process_effective_balance_updates (the balances
+	// of a post-state are the ones the epoch transition examined)
+	inBand bool
+}
+
+func factsOf(sc *chain.StateCtx) regFacts {
+	f := regFacts{epoch: sc.Epoch(), active: map[common.ValidatorIndex]bool{}, slashed: map[common.ValidatorIndex]bool{}, inBand: true}
+	spec := sc.Spec
+	hinc := spec.EFFECTIVE_BALANCE_INCREMENT / common.Gwei(spec.HYSTERESIS_QUOTIENT)
+	down, up := hinc*common.Gwei(spec.HYSTERESIS_DOWNWARD_MULTIPLIER), hinc*common.Gwei(spec.HYSTERESIS_UPWARD_MULTIPLIER)
+	bals := sc.Balances()
+	for i, v := range sc.Validators() {
+		if bals[i]+down < v.EffectiveBalance || v.EffectiveBalance+up < bals[i] {
+			f.inBand = false
+		}
+		f.effs = append(f.effs, v.EffectiveBalance)
+		if v.Slashed {
+			f.slashed[common.ValidatorIndex(i)] = true
+		}
+		if v.ActivationEpoch <= f.epoch && f.epoch < v.ExitEpoch {
+			f.active[common.ValidatorIndex(i)] = true
+		}
+	}
+	return f
+}
+
+// boundaryClass classifies an epoch boundary by what changed in the registry across it.
+func boundaryClass(pre, post regFacts) []string {
+	if pre.epoch == post.epoch {
+		return nil
+	}
+	effChanged := len(pre.effs) != len(post.effs)
+	for i := 0; !effChanged && i < len(pre.effs); i++ {
+		effChanged = pre.effs[i] != post.effs[i]
+	}
+	joined, left, slashedLeft := false, false, false
+	for i := range post.active {
+		joined = joined || !pre.active[i]
+	}
+	for i := range pre.active {
+		left = left || !post.active[i]
+		slashedLeft = slashedLeft || (!post.active[i] && post.slashed[i])
+	}
+	var out []string
+	switch {
+	case !effChanged && (joined || left) && !post.inBand:
+		out = append(out, "active-set-changed-eff-values-unchanged-but-hysteresis-condition-met")
+	case !effChanged && (joined || left):
+		if joined {
+			out = append(out, "active-set-changed-no-eff-change:activation")
+		}
+		if left {
+			out = append(out, "active-set-changed-no-eff-change:exit")
+		}
+		if joined && left {
+			out = append(out, "active-set-changed-no-eff-change:both")
+		}
+		if slashedLeft {
+			out = append(out, "active-set-changed-no-eff-change:slashed-exit")
+		}
+	case effChanged && !joined && !left:
+		out = append(out, "eff-changed-active-set-unchanged")
+	case !effChanged:
+		out = append(out, "boundary-registry-unchanged")
+	default:
+		out = append(out, "boundary-eff-and-active-set-changed")
 	}
 	return out
 }
